@@ -1,4 +1,6 @@
 SPECIFICATION Spec
-CONSTANT MaxFaults = 1
+CONSTANTS
+  MaxFaults = 1
+  Window = 1
 INVARIANT Dump
 CHECK_DEADLOCK FALSE
